@@ -590,6 +590,10 @@ func NewFromScanner(scanner *bufio.Scanner) (*Config, error) {
 		}
 		lines = append(lines, scanner.Text())
 	}
+	if err := scanner.Err(); err != nil {
+		// e.g. bufio.ErrTooLong: the rest of the configuration has not been read
+		return nil, fmt.Errorf("error reading configuration: %v", err)
+	}
 	for i, start := range sectionLineNum {
 		var end int
 		if i+1 >= len(sectionLineNum) {
